@@ -150,6 +150,21 @@ def rule(F, rule_id, file_res, floor=1):
 		if cnt.get((fl, tail, fld, cl), 0) == 0:
 			fns = [x for x in F.fns if root_fn(x).rsplit('::', 1)[-1] == tail and F.fns[x]['file'].endswith(fl.split(':', 1)[1])]
 			out.append(Result(rule_id, False, 'mutation-lost:%s:%s:%s' % (tail, fld, cl), '%s no longer %s %s (reviewed: it did): the stored collection keeps / lacks an entry on this path that every other path accounts for' % (tail, _WHAT.get(cl, cl), fld), 1, where=F.where(fns[0]) if fns else fl))
+	# ... and no reviewed function GAINED a mutation of a stored collection: an entry added twice, a tombstone written for a node that was never
+	# reported failed, a removal on a path that used to keep the entry.  Counts per (function, collection, class) of the same build profile;
+	# functions the table never saw are not judged.
+	prof = 'dev' if F.dir.rstrip('/').endswith('-dev') else 'release'
+	cc = tab.get('counts', {}).get(prof)
+	if cc is not None:
+		reviewed = {tuple(r[:4]): r[4] for r in cc}
+		fns_known = {(r[0], r[1]) for r in cc} | {tuple(x) for x in tab.get('functions', {}).get(prof, [])}
+		for k, c in sorted(cnt.items()):
+			fl, tail, fld, cl = k
+			if not any(re.search(p, fl.replace(':', '/src/')) for p in file_res) or (fl, tail) not in fns_known:
+				continue
+			if c > reviewed.get(k, 0):
+				fn, line = where[k]
+				out.append(Result(rule_id, False, 'mutation-gained:%s:%s:%s' % (tail, fld, cl), '%s now %s %s %d time(s) (reviewed: %d): an additional write to a stored collection - an entry recorded twice, recorded for something it does not describe, or removed on a path that used to keep it' % (tail, _WHAT.get(cl, cl), fld, c, reviewed.get(k, 0)), 1, where=F.where(fn, line)))
 	if n < floor:
 		return [Result(rule_id, False, 'anchor:mutations', 'only %d reviewed collection mutations left in %s (expected >= %d)' % (n, file_res, floor))]
 	if not out:
